@@ -13,8 +13,9 @@ import (
 	"dsim/core"
 	"dsim/simos"
 
-	"github.com/dolthub/dolt/go/libraries/doltcore/ref"
 	dstore "dsim/store"
+	"github.com/dolthub/dolt/go/libraries/doltcore/ref"
+	"github.com/dolthub/dolt/go/store/types"
 )
 
 // The transaction harness behind C22 (snapshot reads), C23 (merge at commit, no lost write) and
@@ -39,6 +40,10 @@ type TxnBody struct {
 	NSess      int     `json:"nsess"`
 	Autocommit []bool  `json:"autocommit"`
 	Ops        []TxnOp `json:"ops"`
+	// Crash: the run ends with one more transaction whose COMMIT the server does not survive: crash
+	// images at the structural file-system events of that statement and after it (crash.go).
+	Crash bool      `json:"crash,omitempty"`
+	Only  *SQLCrash `json:"only,omitempty"`
 }
 
 const (
@@ -137,6 +142,7 @@ func (h TXN) Generate(seed uint64, tier string) *core.Scenario {
 		b.Ops = append(b.Ops, TxnOp{S: s, Kind: "commit"})
 	}
 	b.Ops = append(b.Ops, TxnOp{S: 0, Kind: "read"})
+	b.Crash = h.Prop != "C22" && r.Chance(1, 3)
 	raw, _ := json.Marshal(b)
 	return &core.Scenario{Property: h.Prop, Harness: h.Prop, Seed: seed, Tier: tier, Body: raw}
 }
@@ -236,10 +242,10 @@ func merge3(base, theirs, mine mtab) (out mtab, conflict []int) {
 
 type msess struct {
 	explicit bool // inside START TRANSACTION ... COMMIT (autocommit is suspended until it ends)
-	active bool
-	start  mtab
-	view   mtab
-	view2  mtab // C22: branch b2 as of the transaction's start (never written by these sessions)
+	active   bool
+	start    mtab
+	view     mtab
+	view2    mtab // C22: branch b2 as of the transaction's start (never written by these sessions)
 }
 
 func (h TXN) Execute(t *testing.T, sc *core.Scenario) *core.Result {
@@ -797,6 +803,9 @@ func (h TXN) Execute(t *testing.T, sc *core.Scenario) *core.Result {
 			indexMirror(len(ss)-1, len(b.Ops))
 		}
 	}
+	if b.Crash && !res.Violated() && res.Panic == "" {
+		h.crashPhase(ctx, sc, &b, w, sos, res, branch, indexMirrorS)
+	}
 	res.Ops = len(b.Ops)
 	res.LogHash = sig.Sum()
 	if overlaps > 0 {
@@ -848,4 +857,98 @@ func (h TXN) Shrinks(sc *core.Scenario) []*core.Scenario {
 		}
 	}
 	return out
+}
+
+// crashPhase: one more transaction on main (two new rows, one changed row) is committed and the
+// server dies at a structural file-system event of that COMMIT, or right after it. A fresh engine on
+// every crash image must come up, show the table either without or with the whole transaction
+// (nothing in between, nothing else), with it if the COMMIT had been acknowledged and the crash came
+// after the statement returned, keep its indexes equal to the table, keep its store closed under
+// references, and accept a new commit.
+func (h TXN) crashPhase(ctx context.Context, sc *core.Scenario, b *TxnBody, w *World, sos *simos.OS, res *core.Result, branch mtab, mirror func(*Sess, int, int)) {
+	cs, err := w.NewSession(ctx, false)
+	if err != nil {
+		res.Panic = "crash phase: " + err.Error()
+		return
+	}
+	old := branch.clone()
+	neu := branch.clone()
+	stmts := []string{"INSERT INTO kv (pk, a, b, c) VALUES (900, 1, 2, 'crash-1')", "INSERT INTO kv (pk, a, b, c) VALUES (901, 2, 0, 'crash-2')"}
+	neu[900] = mrow{"900", "1", "2", "crash-1"}
+	neu[901] = mrow{"901", "2", "0", "crash-2"}
+	ks := make([]int, 0, len(branch))
+	for k := range branch {
+		ks = append(ks, k)
+	}
+	sort.Ints(ks)
+	if len(ks) > 0 {
+		r := branch[ks[0]]
+		r[3] = "crash-upd"
+		neu[ks[0]] = r
+		stmts = append(stmts, fmt.Sprintf("UPDATE kv SET c = 'crash-upd' WHERE pk = %d", ks[0]))
+	}
+	for _, q := range stmts {
+		if _, err := cs.Exec(ctx, q); err != nil {
+			res.Probe("crash_phase_statement_refused")
+			return
+		}
+	}
+	start := sos.LogLen()
+	_, cerr := cs.Exec(ctx, "COMMIT")
+	end := sos.LogLen()
+	acked := cerr == nil
+	if !acked {
+		res.Probe("crash_phase_commit_refused")
+	}
+	log := append([]simos.Event(nil), sos.Log()...)
+	// one engine at a time: this world is over
+	w.Close()
+	simos.Uninstall()
+	cases := sqlCrashCases(log, start, end, "test", 8, int(sc.Seed%7), b.Only)
+	render := func(t mtab) string {
+		var rows [][]string
+		for _, r := range t {
+			rows = append(rows, r[:])
+		}
+		return rowsKey(rows)
+	}
+	forEachCrashImage(ctx, res, log, sc.Seed, cases, "a transaction's COMMIT", func(w2 *World, c sqlCrashCase, desc string, pin func(*core.Violation)) {
+		s2, err := w2.NewSession(ctx, true)
+		if err != nil {
+			pin(res.Violate("server-unusable-after-crash", "what=session", 0, "%s: %s", desc, firstLine(err)))
+			return
+		}
+		got, err := s2.Exec(ctx, "SELECT pk, a, b, c FROM kv")
+		if err != nil {
+			pin(res.Violate("committed-data-unreadable-after-crash", "variant="+c.Variant.Name, 0, "%s: %s", desc, firstLine(err)))
+			return
+		}
+		g := rowsKey(got)
+		switch {
+		case g == render(neu) && acked:
+			res.Probe("recovered_with_the_transaction")
+		case g == render(old) && !(c.End && acked):
+			res.Probe("recovered_without_the_transaction")
+		case g == render(old):
+			pin(res.Violate("acknowledged-transaction-lost-in-crash", "variant="+c.Variant.Name, 0, "%s: COMMIT had been acknowledged, the recovered table holds\n%s\nthe transaction's rows are gone; expected\n%s", desc, indent(g), indent(render(neu))))
+		default:
+			pin(res.Violate("recovered-state-is-neither-before-nor-after-the-transaction", "variant="+c.Variant.Name, 0, "%s (COMMIT acknowledged: %v): the recovered table holds\n%s\nbefore the transaction it held\n%s\nafter it\n%s", desc, acked, indent(g), indent(render(old)), indent(render(neu))))
+		}
+		mirror(s2, -1, 0)
+		if vs, ok := w2.Env.DoltDB(ctx).ValueReadWriter().(*types.ValueStore); ok {
+			if n, bad, err := walkStore(ctx, vs); err == nil && len(bad) > 0 {
+				pin(res.Violate("recovered-store-not-closed-under-references", "variant="+c.Variant.Name, 0, "%s: a walk from the recovered root (%d chunks read) finds: %s", desc, n, strings.Join(bad, "; ")))
+			}
+		}
+		if _, err := s2.Exec(ctx, "INSERT INTO kv (pk, a, b, c) VALUES (950, 0, 0, 'after-crash')"); err != nil {
+			pin(res.Violate("server-unusable-after-crash", "what=insert", 0, "%s: %s", desc, firstLine(err)))
+		} else if _, err := s2.Exec(ctx, "CALL dolt_commit('-Am', 'after the crash')"); err != nil {
+			pin(res.Violate("server-unusable-after-crash", "what=dolt_commit", 0, "%s: %s", desc, firstLine(err)))
+		}
+	}, func(c SQLCrash) []byte {
+		b2 := *b
+		b2.Only = &c
+		raw, _ := json.Marshal(b2)
+		return raw
+	})
 }
